@@ -164,8 +164,10 @@ func genAM(rng *RNG, caps amCaps, pkg string, profile string) *amSchema {
 		if i > 0 {
 			r := rng.Intn(100)
 			switch {
-			case r < 55:
+			case r < 50:
 				kind = "struct"
+			case r < 58:
+				kind = "alias"
 			case r < 70 && caps.Enums:
 				kind = "enumS"
 			case r < 76 && caps.Enums && caps.IntEnums && caps.Format == "cue":
@@ -235,6 +237,22 @@ func (g *amGen) objType(p amPlan, profile string) *amType {
 			}
 		}
 		return u
+	case "alias":
+		// an object that is just a reference to an earlier one (`#Panel: #PanelV2`)
+		var cands []string
+		for _, q := range g.plan {
+			if q.name == p.name {
+				break
+			}
+			if q.kind != "famStruct" && q.kind != "alias" {
+				cands = append(cands, q.name)
+			}
+		}
+		if len(cands) == 0 {
+			return g.structType(2, p.name, profile)
+		}
+		g.tag("obj:alias")
+		return &amType{K: "ref", Ref: pick(g.rng, cands), MinLen: -1, MaxLen: -1}
 	case "arr":
 		g.tag("obj:array")
 		return &amType{K: "array", Elem: g.leafOrRef(p.name, profile, false), MinLen: -1, MaxLen: -1}
@@ -351,7 +369,7 @@ func (g *amGen) plannedBefore(target, owner string) bool {
 func (g *amGen) refIsStructural(name string) bool {
 	for _, p := range g.plan {
 		if p.name == name {
-			return p.kind == "struct" || p.kind == "famStruct" || p.kind == "disc"
+			return p.kind == "struct" || p.kind == "famStruct" || p.kind == "disc" || p.kind == "alias"
 		}
 	}
 	return false
